@@ -22,6 +22,10 @@ class ChildFailure(Exception):
     pass
 
 
+class Unpicklable(Exception):
+    """The request cannot be sent to another process."""
+
+
 def _write_all(fd, data):
     view = memoryview(data)
     while view:
@@ -142,7 +146,11 @@ class RefServer:
 
     def ask(self, req):
         self.requests += 1
-        send_msg(self.req_w, req)
+        try:
+            data = pickle.dumps(req, pickle.HIGHEST_PROTOCOL)
+        except Exception as e:  # noqa: BLE001 - state objects that cannot be pickled
+            raise Unpicklable("%s: %s" % (type(e).__name__, e))
+        _write_all(self.req_w, struct.pack("<Q", len(data)) + data)
         msg = recv_msg(self.res_r)
         if msg is None:
             raise ChildFailure("reference server died")
